@@ -400,3 +400,55 @@ def mc_raises(ctx, st, exc):
 
 UNITS.append(Unit("C13", "jsonargparse._parameter_resolvers:mro_context", mc_setup, mc_post, mc_raises, expect_cover=("return", "raise:<Any>"),
                   trusted=["ContextVar get/set/reset with a token; inspect.getmro(parent) ends with object"]))
+
+
+# ------------------------------------------------------------------------------------------------ get_signature_parameters (resolver order)
+def gsp_setup(ctx):
+    from pyvc.engine import ExcVal, PyRaise, Fn
+    # each resolver: returns a list, returns None (does not apply), or raises
+    fates = []
+    names = ["get_parameters_from_pydantic_or_attrs", "get_parameters_from_ast", "get_parameters_from_stubs", "get_parameters_by_assumptions"]
+    for nm in names:
+        fates.append(["None", "params", "empty-list", "raises"][ctx.choose(4, nm)])
+    results = {nm: [Rec(f"param from {nm}")] for nm in names}
+    comp, logger = Rec("component"), Rec("logger", methods={"debug": lambda c, s_, a, k: c.event("logged", a[1] if len(a) > 1 else None)})
+
+    def mk(nm, fate):
+        def fn(c, a, k):
+            c.event("resolver", nm, a[0], a[1], a[2])
+            if fate == "raises":
+                raise PyRaise(ExcVal("ValueError", args=("cannot resolve",), origin=nm))
+            return {"None": None, "params": results[nm], "empty-list": []}[fate]
+        return Fn(fn, nm)
+
+    fns = {nm: mk(nm, f) for nm, f in zip(names, fates)}
+    for nm in names:
+        fns[nm].__name__ = nm
+    consts = {nm: Rec(nm, attrs={"__name__": nm}, methods={"__call__": (lambda c, s_, a, k, _f=fns[nm]: _f.fn(c, a, k))}) for nm in names}
+
+    def symcall(c, f, a, k):
+        if isinstance(f, Rec) and "__call__" in f.methods:
+            return f.methods["__call__"](c, f, a, k)
+        return NotImplemented
+
+    calls = {"get_component_and_parent": lambda c, a, k: c.event("input-verified", a[0], a[1]), "parse_logger": lambda c, a, k: logger}
+    return Setup(env={"function_or_class": comp, "method_or_property": "run", "logger": True}, calls=calls, consts=consts, symcall=symcall,
+                 data=dict(fates=fates, names=names, results=results, comp=comp, logger=logger))
+
+
+def gsp_post(ctx, st, result):
+    d = st.data
+    tag = f"[{d['fates']}]"
+    called = [e[1] for e in ctx.events if e[0] == "resolver"]
+    # the first resolver that gives an answer (a list, possibly empty) decides; one that does not apply (None) or fails hands over to the next
+    first = next((i for i, f in enumerate(d["fates"]) if f in ("params", "empty-list")), None)
+    want_called = d["names"][: (first + 1) if first is not None else 4]
+    ctx.oblige("post", "the-resolvers-are-tried-in-the-documented-order(pydantic/attrs, AST, stubs, assumptions)-until-one-answers;a-failing-one-is-logged-and-skipped" + tag, called == want_called)
+    want = d["results"][d["names"][first]] if first is not None and d["fates"][first] == "params" else []
+    ctx.oblige("post", "the-parameters-are-those-of-the-first-resolver-that-answers(none when nobody does)" + tag, (result is want) if want else result == [])
+    ctx.oblige("post", "every-resolver-gets-the-component,the-method-and-the-logger" + tag, all(e[2] is d["comp"] and e[3] == "run" and e[4] is d["logger"] for e in ctx.events if e[0] == "resolver"))
+    ctx.oblige("post", "the-input-is-verified-first" + tag, ctx.events[0][0] == "input-verified")
+
+
+UNITS.append(Unit("C13", "jsonargparse._parameter_resolvers:get_signature_parameters", gsp_setup, gsp_post, never13, max_paths=5000,
+                  trusted=["the four resolvers by contract: a list of parameters, None when they do not apply, or an exception (AST resolver: the other units of this property and the harness)"]))
